@@ -107,12 +107,16 @@ func gapCorpus() []*CaseSpec {
 		// a Flush of two instances (hook registered) overlapped by the ADD of a prefix in the first
 		// instance that points at a group of the second: the flush is one step, so the ADD comes
 		// after all of it (the group is gone: the prefix is held), never between the instances
-		{"hook/flush-two-instances|add-v4-into-first-pointing-at-second", true, func() []Step {
-			inOther := func(st Step) Step { st.Op.NetworkInstance = other; return st }
+		{"hook/flush-three-instances|add-v4-into-first-pointing-at-third", true, func() []Step {
+			// (three, not two: a goroutine that has waited for the lock gets it at the second
+			// unlock at the latest — Go's mutex hands it over once a waiter has starved for 1 ms —,
+			// the first unlock may be won back by the flushing goroutine itself)
+			third := p.NIs[2]
+			in := func(n string, st Step) Step { st.Op.NetworkInstance = n; return st }
 			y := v4(6, "1.0.0.0/8", 1, A)
-			y.Op.Entry.(*spb.AFTOperation_Ipv4).Ipv4.Ipv4Entry.NextHopGroupNetworkInstance = sv(other)
-			return []Step{addOther, {Kind: "sethook"}, nh(1, 5, A), inOther(nh(2, 1, A)), inOther(nhg(3, 1, 1, A)),
-				with(Step{Kind: "flush", NIs: []string{ni, other}}, y), inOther(nh(7, 1, A)), inOther(nhg(8, 1, 1, A))}
+			y.Op.Entry.(*spb.AFTOperation_Ipv4).Ipv4.Ipv4Entry.NextHopGroupNetworkInstance = sv(third)
+			return []Step{addOther, {Kind: "addni", NI: third}, {Kind: "sethook"}, nh(1, 5, A), in(other, nh(2, 7, A)), in(third, nh(3, 1, A)), in(third, nhg(4, 1, 1, A)),
+				with(Step{Kind: "flush", NIs: []string{ni, other, third}}, y), in(third, nh(7, 1, A)), in(third, nhg(8, 1, 1, A))}
 		}()},
 		// DELETE of a next-hop overlapped by the ADD of a group listing it
 		{"del-nh|add-nhg", true, []Step{nh(1, 1, A), with(nh(2, 1, D), nhg(3, 1, 1, A)), nhg(4, 1, 1, D), nh(5, 1, D)}},
